@@ -135,6 +135,17 @@ impl Check for C11 {
                     lines.push(Line::Sem(Stmt::Assign { name: g.name_use(&mut r, &name), e }));
                 } else {
                     let names: Vec<NameUse> = if use_session { bound.clone() } else { vec![] };
+                    if tier == "thorough" && lang == "en" && r.chance(1, 4) {
+                        // systematic coverage of the ordered zone pairs of the table: pair index derived from the seed and the line count
+                        let nz = g.zones.len();
+                        let k = (seed / 11) as usize + lines.len() * 7919;
+                        let (za, oa) = g.zones[k % nz].clone();
+                        let (zb, ob) = g.zones[(k / nz) % nz].clone();
+                        let mut tl = g.time_lit(&mut r, false);
+                        tl.zone = Some((za, oa));
+                        lines.push(Line::Sem(Stmt::Eval(Expr::ToZone { e: Box::new(Expr::Lit(Lit::Time(tl))), conn: conn(&mut r), zone: zb, off: ob })));
+                        continue;
+                    }
                     lines.push(Line::Sem(Stmt::Eval(gen_line(&mut r, &g, lang, &names))));
                 }
             }
